@@ -17,6 +17,8 @@ EXPLANATION = (
     "update_state under write_lock; add_identity removes the previous identity of the key and the identity's other "
     "keys before inserting."
 )
+EXPLANATION_ADD = ' Additions: (LOCK rmw) write_lock dominates the snapshot load and the modifier call, not only the store; (FLOW-now) is_authorized is asked about a fresh instant (Instant::now() in the same call or a parameter), never a stored one.'
+EXPLANATION = EXPLANATION + EXPLANATION_ADD
 RESIDUAL = ["histories (lapse between handshake and data packets)", "WireGuard session cryptography (ana-gotatun)"]
 ASSUMPTIONS = ["ana-gotatun Tunn performs encryption/decryption only via handle_incoming_packet/handle_outgoing_packet"]
 TECHNIQUE = "MIR dominance / who-may-call / provenance analysis (GS, WMC, FLOW, LOCK templates)"
